@@ -1,11 +1,12 @@
 #!/bin/bash
 # runs every seeded change under /verif/seeded against the quick check of the property it breaks
 # (plus any extra ids given in meta.json "also_check"), writes the outcome into meta.json
-cd /verif
+cd "$(dirname "$0")/.."
+V=$(pwd)
 for d in seeded/*/; do
   s=$(basename $d); id=${s%-*}
   [ -n "$1" ] && [[ ! "$s" =~ $1 ]] && continue
-  out=$(scripts/try_seed.sh /verif/$d/patch.diff $id 2>&1)
+  out=$(scripts/try_seed.sh $V/$d/patch.diff $id 2>&1)
   rc=$(echo "$out" | sed -n 's/^== .* rc=\([0-9]*\)/\1/p' | head -1)
   cause=$(echo "$out" | sed -n 's/^ *cause: //p' | head -1)
   broken=$(echo "$out" | sed -n 's/^ *broken: //p' | head -1)
